@@ -95,7 +95,7 @@ EXHAUSTIVE = {'quick': True, 'thorough': True}
 
 WATCHDOG = 20.0     # generous real-time guard; firing only ever yields R.inconclusive
 
-CHAINS = ['none', 'split', 'domsplit', 'forward+split', 'date+split']
+CHAINS = ['none', 'split', 'domsplit', 'forward+split', 'date+split', 'domsplit+split']
 SHAPES = ['qerr', 'qerr451', 'qerr552', 'runtime', 'slow-ok', 'slow-fail']
 PAIR_SHAPES = [('qerr451', 'qerr552'), ('qerr552', 'qerr451'), ('qerr', 'qerr552'), ('qerr552', 'runtime')]
 TRANSPORTS = {'quick': ['smtp-script', 'wsgi-app'],
@@ -365,6 +365,11 @@ class Lab(object):
                 self.queue.add_policy(RecipientSplit())
             elif chain == 'date+split':
                 self.queue.add_policy(AddDateHeader())
+                self.queue.add_policy(RecipientSplit())
+            elif chain == 'domsplit+split':
+                # two splitting policies: outputs of the first are split again (re-entrant
+                # replacement in Queue._run_policies)
+                self.queue.add_policy(RecipientDomainSplit())
                 self.queue.add_policy(RecipientSplit())
             if chain != 'none':
                 self.tap = TapPolicy()
